@@ -3,7 +3,7 @@
 #   with the patch: existing suite passes, demo fails; without: demo passes.  Writes <dir>/confirm.json
 WT=/tmp/wt-confirm-$$
 git -C /repo worktree add -q --detach $WT HEAD || exit 3
-export CARGO_NET_OFFLINE=true CARGO_TARGET_DIR=/tmp/wt-confirm-target
+export CARGO_NET_OFFLINE=true CARGO_TARGET_DIR=/tmp/wt-confirm-target-$$ CARGO_BUILD_JOBS=6
 for d in "$@"; do
   id=$(basename $d); t=demo_$(echo $id | tr 'A-Z-' 'a-z_')
   cd $WT; git checkout -q -- . ; rm -f tests/demo_*.rs
@@ -18,4 +18,4 @@ for d in "$@"; do
   echo "{\"id\": \"$id\", \"applies\": $ok_apply, \"suite_with_patch\": \"$suite\", \"demo_with_patch\": \"$demo_with\", \"demo_without_patch\": \"$demo_without\", \"repo_head\": \"$(git -C /repo rev-parse --short HEAD)\"}" > $d/confirm.json
   cat $d/confirm.json
 done
-cd /; git -C /repo worktree remove --force $WT; rm -rf /tmp/wt-confirm-target
+cd /; git -C /repo worktree remove --force $WT; rm -rf /tmp/wt-confirm-target-$$
